@@ -217,11 +217,12 @@ PROPS["C14"] = {
     "rule": ("reference-marshalled message sequences (1..12 messages, 16 B..70 KiB, both endians, 0..3 fds) delivered through the scripted "
              "transport: ALL single cuts and all pairs of cuts (first 100 offsets in quick) of a 3-message stream, 1-byte reads, "
              "fixed-size and random cut plans incl. cuts around the 16-byte header, under 5 scheduler biases; received == sent "
-             "(bytes, fd identity by (dev,ino), order, increasing recv_position, end after EOF); headers declaring > 128 MiB must "
-             "produce an error at quiescence without a large allocation; distinct = distinct schedule fingerprints"),
-    "gates": {"quick": {"evaluations": 5000, "distinct": 1000}, "thorough": {"evaluations": 60000, "distinct": 10000}},
-    "assumptions": ["the scripted transport cuts before every fd-carrying message as the kernel does; how many bytes each recvmsg asks for is not judged",
-                    "handshake-leftover hand-off is exercised under C17"],
+             "(bytes, fd identity by (dev,ino), order, increasing recv_position, end after EOF); EVERY handshake-leftover length 0..len(m1)+len(m2)+20 of such a stream behind a real client handshake (x3 chunkings); "
+             "headers declaring > 128 MiB must produce an error at quiescence without a large allocation; distinct = distinct schedule fingerprints"),
+    "gates": {"quick": {"evaluations": 5000, "distinct": 1000, "class:handshake-leftover": 200, "class:leftover-inside-first-fixed-header": 40, "leftover_lengths_enumerated": 50},
+              "thorough": {"evaluations": 60000, "distinct": 10000}},
+    "assumptions": ["the scripted transport cuts before every fd-carrying message as the kernel does and hands fds to the read that consumes the message's first byte; how many bytes each recvmsg asks for is not judged",
+                    "handshake leftovers: every leftover length of a 3-message stream here; random leftovers with several fd-carrying messages under C17"],
 }
 
 PROPS["C15"] = {
@@ -259,10 +260,11 @@ PROPS["C17"] = {
     "rule": ("EVERY server reply sequence of length <= 2 (3 thorough) over 15 templates (OK with valid/upper-case/31-/33-hex/hyphenated/"
              "non-hex/missing GUID, REJECTED, ERROR, DATA, AGREE_UNIX_FD, unknown, non-UTF-8, empty, BEGIN) x fd-capable or not x "
              "read splits, plus random leftover scenarios behind a proper handshake (0..6 trailing messages with 0..2 fds each, merged "
-             "into the last handshake read the way the kernel batches them); success => first reply was a proper OK, proper "
+             "into the last handshake read the way the kernel batches them, that read often ending INSIDE a message or its 16-byte header); success => first reply was a proper OK, proper "
              "server => success, fd capability (observed by sending an fd) <=> AGREE_UNIX_FD, trailing messages and fds delivered "
              "intact and in order; distinct = distinct (script, fd pattern) x schedule"),
-    "gates": {"quick": {"evaluations": 3000, "distinct": 1000, "class:leftover-random": 2000, "leftover_messages_sent": 5000},
+    "gates": {"quick": {"evaluations": 3000, "distinct": 1000, "class:leftover-random": 2000, "leftover_messages_sent": 5000,
+                        "class:leftover-ends-inside-a-message": 300, "class:leftover-ends-inside-fixed-header": 100},
               "thorough": {"evaluations": 200000, "distinct": 50000}},
     "assumptions": ["the expected-GUID check needs an address with a guid= key (real socket); it is exercised by the thorough real-socket layer only",
                     "the property only constrains success (necessary condition); extra lenience such as a second OK is not judged"],
